@@ -6,12 +6,13 @@ export GOFLAGS=-mod=mod GOPROXY=off GOSUMDB=off GOTOOLCHAIN=local
 cd $WT || exit 2
 S=$WT/_seeded
 PKG=$(jq -r .demo_pkg_dir $S/meta.json); TF=$(jq -r .demo_file_name $S/meta.json); PAT=$(jq -r .demo_run_pattern $S/meta.json)
+EXTRA=$(jq -r '.demo_extra_flags // ""' $S/meta.json)
 git checkout -q -- . ; git clean -fdq -e _seeded
 cp $S/demo_test.go $PKG/$TF
-echo "--- without patch:"; go test -vet=off -count=1 -run "$PAT" ./$PKG/ 2>&1 | tail -2
+echo "--- without patch:"; go test -vet=off -count=1 $EXTRA -run "$PAT" ./$PKG/ 2>&1 | tail -2
 git apply $S/patch.diff || { echo "patch does not apply"; exit 2; }
 go build ./... || { echo "build fails"; exit 2; }
-echo "--- with patch:"; go test -vet=off -count=1 -run "$PAT" ./$PKG/ 2>&1 | grep -E "^(--- FAIL|FAIL|ok|panic|fatal)" | head -4
+echo "--- with patch:"; go test -vet=off -count=1 $EXTRA -run "$PAT" ./$PKG/ 2>&1 | grep -E "^(--- FAIL|FAIL|ok|panic|fatal)" | head -4
 rm -f $PKG/$TF
 echo "--- pinned tests with patch:"; go test -vet=off -count=1 -run 'TestFile_Name|TestFileInfo' ./pkg/fs/ 2>&1 | tail -1
 git checkout -q -- .
